@@ -15,6 +15,9 @@ from .. import ianasuite
 from .. import refrecord
 from ..core import pmap
 from tlslite.constants import CipherSuite
+CS = CipherSuite
+HRR_RANDOM = bytes.fromhex(
+    "cf21ad74e59a6111be1d8c021e65b891c2a211167abb8c5e079e09e2c8a8339c")
 
 LEVEL = "exploration"
 
@@ -389,6 +392,79 @@ def multi_case(item):
     return name, ("ok", info.name, kt), fails
 
 
+# ------------------------------------------------ cross-version histories
+def crossver_case(item):
+    """A session made at version v1 is offered on a connection whose ends
+    settle on v2 (session ID and ticket): whatever the server does with it,
+    the handshake completes and the suite on the wire is one the negotiated
+    version defines."""
+    v1, v2, how, sid, seed = item
+    name = "%s->%s/%s/%04x" % (S.VNAME[v1], S.VNAME[v2], how, sid)
+    kw = dict(cred="rsa", cache=(how == "id"), tickets=(how == "ticket"))
+    first = S.Scen("c20/cross-first", version=v1, suite=sid, **kw)
+    p0, o0 = S.connect(first, seed=seed)
+    if o0["C"].status != "ok" or o0["S"].status != "ok":
+        return name, ("first-failed",), []
+    sess, cache = p0.c.session, getattr(p0, "cache", None)
+    p0.close("C")
+    p0.read("S", None, 1)
+    p0.close("S")
+    # second connection: both ends allow v1..v2 (or v2..v1), same suite
+    # plus whatever the defaults add at the other version
+    lo, hi = min(v1, v2), max(v1, v2)
+    second = S.Scen("c20/cross-second", minv=lo, maxv=v2, sminv=lo, smaxv=v2,
+                    **kw)
+    try:
+        pair, out = S.connect(second, seed=seed + 1, session=sess,
+                              cache=cache)
+    except ValueError as e:
+        return name, ("client-refuses-locally",), []
+    fails = []
+    if isinstance(out["C"].exc, ValueError):
+        # the client itself declines to offer a session whose suite the
+        # lowered version does not have
+        return name, ("client-refuses-locally",), []
+    # every ServerHello on the wire: the version it selects defines the
+    # suite it names (whether or not the handshake then completes; clean
+    # fallback from a declined offer is C13's subject)
+    for t, b in plaintext_handshake(pair.world.s2c.log):
+        if t != 2:
+            continue
+        legacy = (b[0], b[1])
+        if bytes(b[2:34]) == HRR_RANDOM:
+            continue
+        o = 2 + 32
+        o += 1 + b[o]
+        wire_suite = int.from_bytes(b[o:o + 2], "big")
+        o += 3
+        sel = legacy
+        if o + 2 <= len(b):
+            end = o + 2 + int.from_bytes(b[o:o + 2], "big")
+            o += 2
+            while o + 4 <= end:
+                et = int.from_bytes(b[o:o + 2], "big")
+                el = int.from_bytes(b[o + 2:o + 4], "big")
+                if et == 43 and el == 2:
+                    sel = (b[o + 4], b[o + 5])
+                o += 4 + el
+        winfo = S.ALL_INFOS.get(wire_suite)
+        if winfo is None or not ianasuite.defined_in(winfo, sel):
+            fails.append("ServerHello selects %s with suite %04x, which "
+                         "that version does not define" % (
+                             S.VNAME.get(sel, sel), wire_suite))
+    if out["C"].status != "ok" or out["S"].status != "ok":
+        return name, ("failed", out["C"].sig()[:3]), fails
+    ver = tuple(pair.c.version)
+    suite = pair.c.session.cipherSuite
+    info = S.ALL_INFOS.get(suite)
+    if tuple(pair.s.version) != ver or pair.s.session.cipherSuite != suite:
+        fails.append("ends disagree on version/suite")
+    if info is None or not ianasuite.defined_in(info, ver):
+        fails.append("suite %04x used at %s, which does not define it" % (
+            suite, S.VNAME[ver]))
+    return name, ("ok", bool(pair.c.resumed), S.VNAME[ver]), fails
+
+
 # ---------------------------------------------------------- lying server
 WRONG_CREDS = ["rsa", "ecdsa", "dsa", "ed25519", "rsapss"]
 CRED_AUTH = {"rsa": "RSA", "rsapss": "RSA", "ecdsa": "ECDSA", "dsa": "DSS",
@@ -547,7 +623,9 @@ def run(res, tier, seed):
         "protocol version (live handshake, tap, reference record layer "
         "keyed from the IANA name); every suite id x version substituted "
         "into ClientHello (server victim) and ServerHello (client victim) by "
-        "a MITM; every certificate-authenticated TLS <= 1.2 suite x every "
+        "a MITM; sessions of TLS 1.0-1.2 offered (ID, ticket) on connections "
+        "that settle on every other version; "
+        "every certificate-authenticated TLS <= 1.2 suite x every "
         "server credential of another key type, served by a server whose "
         "suite-for-certificate filter is off (client victim); distinct by "
         "(suite, version, role); non-trivial = the "
@@ -605,6 +683,28 @@ def run(res, tier, seed):
                           {"multi": name})
     res.section("multi_credential_server", cases=nmu,
                 credential_pairs=MULTI_CREDS, clients=sorted(MULTI_CLIENTS))
+    cv = []
+    for v1 in ((3, 1), (3, 2), (3, 3)):
+        for v2 in ((3, 1), (3, 2), (3, 3), (3, 4)):
+            if v1 == v2:
+                continue
+            for how in ("id", "ticket"):
+                for sid in (CS.TLS_RSA_WITH_AES_128_CBC_SHA,
+                            CS.TLS_ECDHE_RSA_WITH_AES_128_CBC_SHA,
+                            CS.TLS_ECDHE_RSA_WITH_AES_128_GCM_SHA256,
+                            CS.TLS_ECDHE_RSA_WITH_CHACHA20_POLY1305_SHA256):
+                    if not ianasuite.defined_in(S.ALL_INFOS[sid], v1):
+                        continue
+                    cv.append((v1, v2, how, sid, seed))
+    ncv = 0
+    for (name, sig, fails) in pmap(crossver_case, cv):
+        ncv += 1
+        res.count()
+        res.outcome(("crossver",) + tuple(sig))
+        for f in fails:
+            res.violation({"part": "cross-version", "what": f[:45]},
+                          {"case": name, "fail": f}, {"crossver": name})
+    res.section("cross_version_resumption_offers", cases=ncv)
     wk = []
     for (v, sid) in S.suite_version_pairs():
         info = S.ALL_INFOS[sid]
@@ -629,7 +729,7 @@ def run(res, tier, seed):
                           {"case": name, "fail": f}, {"wrongkey": name})
     res.section("server_key_of_another_type", cases=nwk,
                 wrong_certificate_on_the_wire=nsent)
-    res.coverage["distinct_nontrivial"] = done + n_sel + nmu + nwk
+    res.coverage["distinct_nontrivial"] = done + n_sel + nmu + nwk + ncv
     res.assumptions += [
         "ECC suites under SSLv3 are left open (either outcome accepted)",
         "the draft-00 ChaCha20 suites have no IANA registration; their "
